@@ -8,9 +8,11 @@ import (
 	"encoding/hex"
 	"encoding/json"
 	"fmt"
+	"math/big"
 	"runtime"
 
 	"go.dedis.ch/kyber/v4"
+	"go.dedis.ch/kyber/v4/group/p256"
 	"go.dedis.ch/kyber/v4/pairing/bn256"
 	"go.dedis.ch/kyber/v4/xof/blake2xb"
 
@@ -42,8 +44,7 @@ type peStep struct {
 // advStream is a cipher.Stream whose first `prefix` key-stream bytes are a
 // constant (adversarial prefix forcing retries), followed by a seeded XOF.
 type advStream struct {
-	fill   byte
-	prefix int
+	prefix []byte // key-stream bytes delivered first (adversarial), then the seeded XOF
 	used   int
 	x      kyber.XOF
 	drawn  *int
@@ -52,8 +53,8 @@ type advStream struct {
 func (a *advStream) XORKeyStream(dst, src []byte) {
 	for i := range src {
 		var k byte
-		if a.used < a.prefix {
-			k = a.fill
+		if a.used < len(a.prefix) {
+			k = a.prefix[a.used]
 			a.used++
 		} else {
 			var b [1]byte
@@ -68,16 +69,54 @@ func (a *advStream) XORKeyStream(dst, src []byte) {
 }
 
 func (a *advStream) clone() *advStream {
-	return &advStream{fill: a.fill, prefix: a.prefix, used: a.used, x: a.x.Clone(), drawn: new(int)}
+	return &advStream{prefix: a.prefix, used: a.used, x: a.x.Clone(), drawn: new(int)}
 }
 
-func newAdv(runSeed int64, seed, kind string, plen int) *advStream {
+// fieldModulus: the modulus of the coordinate field (curves) or of the residue ring, for the
+// stream kinds whose first candidate is exactly that value.
+func fieldModulus(g *groups.Info) *big.Int {
+	switch g.Family {
+	case "ed25519":
+		return new(big.Int).Sub(new(big.Int).Lsh(big.NewInt(1), 255), big.NewInt(19))
+	case "p256":
+		return hexBig("ffffffff00000001000000000000000000000000ffffffffffffffffffffffff")
+	case "qr":
+		if q, ok := g.Group.(*p256.QrSuite); ok {
+			return q.P
+		}
+	}
+	return nil
+}
+
+func newAdv(g *groups.Info, runSeed int64, seed, kind string, plen int) *advStream {
 	s := &advStream{x: blake2xb.New([]byte(fmt.Sprintf("c17-%d-%s", runSeed, seed))), drawn: new(int)}
 	switch kind {
 	case "zeros":
-		s.fill, s.prefix = 0x00, 3*plen+5
+		s.prefix = bytes.Repeat([]byte{0x00}, 3*plen+5)
 	case "ones":
-		s.fill, s.prefix = 0xff, 3*plen+5
+		s.prefix = bytes.Repeat([]byte{0xff}, 3*plen+5)
+	case "modBE", "modLE", "ordBE", "ordLE":
+		// the first candidate drawn is exactly the field modulus / the group order
+		v := fieldModulus(g)
+		if kind[:3] == "ord" {
+			v = g.Order
+		}
+		if v != nil {
+			w := plen
+			if kind[:3] == "ord" {
+				w = (g.Order.BitLen() + 7) / 8
+			} else if g.Family == "p256" {
+				w = 32
+			}
+			b := make([]byte, w)
+			if v.BitLen() <= 8*w {
+				v.FillBytes(b)
+				if kind[3:] == "LE" {
+					b = reverse(b)
+				}
+				s.prefix = b
+			}
+		}
 	}
 	return s
 }
@@ -188,10 +227,10 @@ func runPE(g *groups.Info, bhs [][]peStep, cfg Config, res *core.Result) int {
 			msg, stack, pan := core.Try(func() {
 				switch s.Op {
 				case "init":
-					st["r1"] = newAdv(cfg.Seed, "A", s.Kind, plen)
+					st["r1"] = newAdv(g, cfg.Seed, "A", s.Kind, plen)
 					st["r2"] = st["r1"].clone()
 				case "newstream":
-					st[s.R] = newAdv(cfg.Seed, s.Seed, s.Kind, plen)
+					st[s.R] = newAdv(g, cfg.Seed, s.Seed, s.Kind, plen)
 				case "copystream":
 					st[s.R] = st[s.R2].clone()
 				case "spick":
@@ -421,7 +460,7 @@ func lenField(g *groups.Info, enc []byte) (int, bool) {
 		return int(enc[32]), true // 0x04 || x(32) || y(32): low byte of x
 	case "bn256-g1":
 		return int(enc[0]), true // x big-endian: high byte of x
-	case "qr512":
+	case "qr512", "qr72-r44":
 		n := len(enc)
 		return int(enc[n-2])<<8 | int(enc[n-1]), true
 	}
